@@ -717,6 +717,16 @@ class Interp:
                 return "break"
         return None
 
+    def shadow(self, stmts, env):
+        """ONNX graphs are typed statically: a path that is not taken on this input must still make sense
+        (operand types, ranks, bound names) or no runtime will load the model.  The untaken path is evaluated
+        on a copy of the environment; if that is undefined the program is not considered defined here."""
+        e2 = dict(env)
+        try:
+            self.block(stmts, e2)
+        except Undefined as u:
+            raise Undefined("untaken path: " + u.reason) from None
+
     def tick(self):
         self.steps += 1
         if self.steps > FUEL:
@@ -745,9 +755,9 @@ class Interp:
             for n, v in zip(s[1], vals):
                 env[n] = v
         elif t == "if":
-            if self.truth(self.expr(s[1], env)):
-                return self.block(s[2], env)
-            return self.block(s[3], env)
+            taken, other = (s[2], s[3]) if self.truth(self.expr(s[1], env)) else (s[3], s[2])
+            self.shadow(other, env)
+            return self.block(taken, env)
         elif t == "for":
             _, ivar, rng, body, brk = s
             n = self.tensor(self.expr(rng, env))
@@ -756,6 +766,10 @@ class Interp:
             n = int(n)
             if n < 0:
                 raise Undefined("negative trip count")
+            if n == 0:
+                e2 = dict(env)
+                e2[ivar] = np.array(0, dtype=np.int64)
+                self.shadow(body, e2)
             for it in range(n):
                 self.tick()
                 env[ivar] = np.array(it, dtype=np.int64)
@@ -769,11 +783,15 @@ class Interp:
                         break
         elif t == "while":
             _, cvar, body, brk = s
+            first = True
             while True:
                 if cvar not in env:
                     raise Undefined(f"unbound {cvar}")
                 if not self.truth(env[cvar]):
+                    if first:
+                        self.shadow(body, env)
                     break
+                first = False
                 self.tick()
                 self.block(body, env)
                 if brk is not None:
